@@ -106,7 +106,7 @@ FanOutDefined(o_) ==
             /\ (o_.sect.shape = "list" => Len(o_.sect.v) = Len(zs) /\ \A k \in 1..Len(zs) : Len(o_.sect.v[k]) = Len(o_.r_sectors[k]) + 1))
 
 \* ---- the option space of the replay -------------------------------------------------------------
-FanMols == {2, 4, 5, 6, 9}                        \* H2 (equal elements), CO, H2O (repeated element), HCN (three elements),
+FanMols == {1, 2, 4, 5, 6, 9}                     \* H (a single atom: no partner, callable weights still apply),                        \* H2 (equal elements), CO, H2O (repeated element), HCN (three elements),
                                                   \* CH4 (five atoms: the whole-grid Becke call is chunked from four atoms on)
 GridNames == <<"G1", "G2", "G3">>
 MolZs(m_) == Molecules[m_].z
